@@ -57,6 +57,9 @@ def hoistable(e):
         return atom(e)
     if e["t"] == "bin" and e["r"]["t"] in ("num", "sym") and atom(e["l"]) is not None:
         return atom(e["l"]) + e["op"] + expr(e["r"])
+    if (e["t"] == "bin" and e["op"] in ("+", "-") and atom(e["l"]) is not None and e["r"]["t"] == "bin" and e["r"]["op"] in ("*", "/")
+            and e["r"]["l"]["t"] in ("num", "sym") and e["r"]["r"]["t"] in ("num", "sym")):
+        return atom(e["l"]) + e["op"] + expr(e["r"]["l"]) + e["r"]["op"] + expr(e["r"]["r"])       # c+2*3(r3): the tighter operator last
     s = expr(e)
     return "<" + s + (" >" if s.endswith(">") else ">") if e["t"] in ("bin", "neg") else s
 
